@@ -149,7 +149,7 @@ def demote_unfitting_invariants(report):
 
 
 PYFUNCS = [('misc.py', 'contracts.py.misc_kernels_spec', f)
-           for f in ('sgemv', 'snrm2', 'jdot', 'jnrm2')]
+           for f in ('sgemv', 'snrm2', 'jdot', 'jnrm2', 'ssqr')]
 
 
 def run(report, tier, seed):
@@ -159,6 +159,10 @@ def run(report, tier, seed):
     # the kernels written in Python (active code of misc.py)
     from engine import pyside
     from engine.checks import py_common
+    for _, _, f_ in PYFUNCS:
+        # engine-generated obligations (loop invariants) of these functions
+        # belong to C08
+        py_common.DEFAULT_PROPS.setdefault(f_, ('C08',))
     preps = pyside.run_tasks(py_common.tasks_for(PYFUNCS, tier))
     n0 = len(report.obs)
     py_common.feed(report, preps, props=('C08',))
@@ -176,10 +180,10 @@ def run(report, tier, seed):
         'block, each entry once, inside the block, and that unpack undoes '
         'pack.')
     report.not_decided += [
-        'scale, scale2, sprod, ssqr, sinv, max_step, pack2: value '
+        'scale, scale2, sprod, sinv, max_step, pack2: value '
         'identities through data-dependent floating-point arithmetic '
         '(scale/inverse, sinv/sprod, <Wx,y> = <x,W\'y>, max_step '
-        'minimality, eigen-decomposition); sgemv, snrm2, jdot, jnrm2 are '
+        'minimality, eigen-decomposition); sgemv, snrm2, jdot, jnrm2, ssqr are '
         'decided as compositions of library calls (arguments and result '
         'formula), the numerical result of those calls is not',
         'the pure-Python fall-backs in misc.py (dead code while use_C = '
